@@ -136,6 +136,39 @@ Fixpoint ieval (e : expr) (fr : frame) (g : glob) {struct e} : res eout :=
           | Fuel => Fuel
           end
       end
+  | ENew cls m =>                                     (* new C(m) *)
+      match ieval m fr g with
+      | Res (EV v) fr g => Res (EV (VObj (gnext g) cls (to_str v))) fr (bump g)
+      | r => r
+      end
+  | EMsg e =>                                         (* ThrowValue.getMessage *)
+      match ieval e fr g with
+      | Res (EV v) fr g =>
+          match msg_of v with
+          | Some m => Res (EV (VStr m)) fr g
+          | None => Res (EX (VErr "method call on a non-object")) fr g
+          end
+      | r => r
+      end
+  | EClass e =>
+      match ieval e fr g with
+      | Res (EV v) fr g =>
+          match class_of v with
+          | Some c => Res (EV (VStr c)) fr g
+          | None => Res (EX (VErr "get_class of a non-object")) fr g
+          end
+      | r => r
+      end
+  | ESame a b =>                                      (* BinaryEqStrict / isStrictEqual *)
+      match ieval a fr g with
+      | Res (EV va) fr g =>
+          match ieval b fr g with
+          | Res (EV vb) fr g => Res (EV (VBool (same_value va vb))) fr g
+          | r => r
+          end
+      | r => r
+      end
+  | EPanic => Res (EX (VErr "go panic")) fr g        (* recovered by TryStatement.guarded *)
   end
 with ieval_args (a : args) (fr : frame) (g : glob) {struct a} : res (list value + value) :=
   match a with
@@ -246,7 +279,15 @@ Definition thr {A} (r : res (A + value)) (k : A -> frame -> glob -> res ictl) : 
   | Res (inr x) fr g => Res (IThrow x) fr g
   end.
 
+(* TryStatement.tryValue: the catch blocks in order, the first whose type accepts the thrown value *)
+Fixpoint find_catch (cm : catchfn) (cs : catches) (x : value) : option (option string * stmt) :=
+  match cs with
+  | CTNil => None
+  | CTCons ty v b r => if cm ty x then Some (v, b) else find_catch cm r x
+  end.
+
 Section Stmt.
+Variable cm : catchfn.
 Variable funs : list fundef.
 
 Fixpoint iexec (n : nat) (fn : string) (s : stmt) (fr : frame) (g : glob) {struct n} : res ictl :=
@@ -409,8 +450,39 @@ Fixpoint iexec (n : nat) (fn : string) (s : stmt) (fr : frame) (g : glob) {struc
           (* the main context has no static store: plain assignment of the initialiser *)
           let '(fr', g') := wr fn x init fr g in Res INone fr' g'
         else
-          let st := match sget (fn, x) (fst g) with Some _ => fst g | None => sset (fn, x) init (fst g) end in
-          Res INone (fst fr, x :: snd fr) (st, snd g)
+          let st := match sget (fn, x) (gstat g) with Some _ => gstat g | None => sset (fn, x) init (gstat g) end in
+          Res INone (fst fr, x :: snd fr) (set_stat st g)
+    | STry b cs f =>                                              (* TryStatement.GetValue *)
+        match iexec n' fn b fr (mark CTry g) with                 (* ghost event: the try is entered *)
+        | Fuel => Fuel
+        | Res cb fr1 g1 =>
+            let caught :=                                         (* tryValue *)
+              match cb with
+              | IThrow x =>
+                  match find_catch cm cs x with
+                  | Some (xv, cbody) =>
+                      let '(fr2, g2) := match xv with Some v => wr fn v x fr1 g1 | None => (fr1, g1) end in
+                      iexec n' fn cbody fr2 g2
+                  | None => Res cb fr1 g1
+                  end
+              | _ => Res cb fr1 g1                                (* break / continue / return pass through *)
+              end in
+            match caught with
+            | Fuel => Fuel
+            | Res c fr3 g3 =>
+                match iexec n' fn f fr3 (mark CFin g3) with       (* ghost event: the finally block starts *)
+                | Fuel => Fuel
+                | Res INone fr4 g4 => Res c fr4 g4
+                | Res cf fr4 g4 => Res cf fr4 g4                  (* a control from finally replaces the pending one *)
+                end
+            end
+        end
+    | SThrow e =>                                                 (* ThrowStatement.GetValue *)
+        match ev e fr g with
+        | Res (EV v) fr g => Res (IThrow (thrown_of v)) fr g
+        | Res (EX x) fr g => Res (IThrow x) fr g
+        | Fuel => Fuel
+        end
     end
   end.
 
@@ -424,4 +496,6 @@ Definition irun (n : nat) (p : stmt) : obs :=
   end.
 End Stmt.
 
-Definition run_impl (n : nat) (p : prog) : obs := irun (funcs p) n (main p).
+Definition run_impl (cm : catchfn) (n : nat) (p : prog) : obs := irun cm (funcs p) n (main p).
+(* programs without try/catch do not consult the catch-type test *)
+Definition no_catch : catchfn := fun _ _ => false.
